@@ -2,6 +2,7 @@ package cache
 
 import (
 	"context"
+	"slices"
 	"sync"
 	"sync/atomic"
 	"time"
@@ -148,6 +149,14 @@ func (pq *PrefetchQueue) processPrefetch(req PrefetchRequest) {
 	// from the copy (it is the cache key and the validation opt-out).
 	if opt := prefetchReq.IsEdns0(); opt != nil {
 		opt.SetDo(true)
+		// Only shared entries are refreshed, and the refresh replaces the
+		// entry for every audience: the triggering client's subnet must
+		// not ride along, or the authority's answer tailored to that one
+		// subnet would be stored under the shared key.
+		opt.Option = slices.DeleteFunc(opt.Option, func(o dns.EDNS0) bool {
+			_, isECS := o.(*dns.EDNS0_SUBNET)
+			return isECS
+		})
 	} else {
 		prefetchReq.SetEdns0(dnsutil.DefaultMsgSize, true)
 	}
